@@ -454,8 +454,8 @@ type roundCfg struct {
 }
 
 func (r roundCfg) String() string {
-	if r.sched == "own-keys" {
-		return fmt.Sprintf("round backend=%s store=%s sched=own-keys g=%d m=%d", r.backend, r.store, r.g, r.m)
+	if r.sched == "own-keys" || r.sched == "retry-merge" || r.sched == "first-appends" {
+		return fmt.Sprintf("round backend=%s store=%s sched=%s g=%d m=%d", r.backend, r.store, r.sched, r.g, r.m)
 	}
 	if r.sched != "" {
 		return fmt.Sprintf("round backend=%s store=%s sched=%s", r.backend, r.store, r.sched)
@@ -491,6 +491,14 @@ func parseRound(line string) (roundCfg, bool) {
 	}
 	if r.sched == "own-keys" && (r.backend == "sql" || r.backend == "mem") && (r.store == "ord" || r.store == "uno") &&
 		r.g >= 2 && r.g <= 32 && r.m >= 10 && r.m <= 60000 {
+		return r, true
+	}
+	if r.sched == "write-during-mutate" && (r.backend == "sql" || r.backend == "mem") && (r.store == "ord" || r.store == "uno") {
+		r.g, r.m = 5, 2
+		return r, true
+	}
+	if (r.sched == "retry-merge" || r.sched == "first-appends") && (r.backend == "sql" || r.backend == "mem") &&
+		(r.store == "ord" || r.store == "uno") && r.g >= 2 && r.g <= 32 && r.m >= 1 && r.m <= 100000 {
 		return r, true
 	}
 	if r.sched == "commit-busy" && r.backend == "sql" && (r.store == "ord" || r.store == "uno") {
@@ -784,14 +792,14 @@ func (e *env) schedCommitBusy(cfg roundCfg, watchdog time.Duration) (*result, er
 		mu.Unlock()
 	}
 	// a Mutate-increment that parks in its callback until released
-	parked := func(g int, entered chan struct{}, release <-chan struct{}, done chan<- struct{}) {
+	parked := func(g int, key string, entered chan struct{}, release <-chan struct{}, done chan<- struct{}) {
 		var once sync.Once
 		signal := func() { once.Do(func() { close(entered) }) }
-		c := &call{g: g, name: "mutate", key: kCtr}
+		c := &call{g: g, name: "mutate", key: key}
 		c.inv = atomic.AddInt64(&clock, 1)
 		saw := "none"
 		raw := new(json.RawMessage)
-		err := kv.Mutate(kCtr, raw, func(v interface{}) error {
+		err := kv.Mutate(key, raw, func(v interface{}) error {
 			p := v.(*json.RawMessage)
 			saw = hx.Hex([]byte(*p))
 			signal()
@@ -817,14 +825,35 @@ func (e *env) schedCommitBusy(cfg roundCfg, watchdog time.Duration) (*result, er
 		record(c)
 	}
 	finished := hx.WithTimeout(watchdog, func() {
+		if cfg.sched == "write-during-mutate" {
+			// a Replace (then an AppendBytes) issued while a Mutate of the same key sits in its callback: it must
+			// either wait / be refused, or take effect before or after the whole Mutate - never be lost under it
+			plain(3, &call{name: "add", key: kMix1, val: "0"})
+			for round, w := range []*call{{name: "replace", key: kMix1, val: "100"}, {name: "appendBytes", key: kMix1, val: "7"}} {
+				enter, rel, done := make(chan struct{}), make(chan struct{}), make(chan struct{})
+				go parked(round, kMix1, enter, rel, done)
+				<-enter
+				wdone := make(chan struct{})
+				go func(w *call) { plain(4, w); close(wdone) }(w)
+				select {
+				case <-wdone: // refused, or applied while the Mutate is parked
+				case <-time.After(150 * time.Millisecond): // blocked behind the Mutate (memory): it runs after it
+				}
+				close(rel)
+				<-done
+				<-wdone
+				plain(3, &call{name: "get", key: kMix1})
+			}
+			return
+		}
 		enterA, relA, doneA := make(chan struct{}), make(chan struct{}), make(chan struct{})
-		go parked(0, enterA, relA, doneA)
+		go parked(0, kCtr, enterA, relA, doneA)
 		<-enterA
 		plain(1, &call{name: "mutate", key: kCtr}) // B: refused at COMMIT (or earlier)
 		close(relA)
 		<-doneA
 		enterX, relX, doneX := make(chan struct{}), make(chan struct{}), make(chan struct{})
-		go parked(2, enterX, relX, doneX)
+		go parked(2, kCtr, enterX, relX, doneX)
 		<-enterX
 		plain(3, &call{name: "add", key: kOnce, val: "7"})
 		plain(3, &call{name: "get", key: kOnce})
@@ -845,7 +874,7 @@ func (e *env) schedCommitBusy(cfg roundCfg, watchdog time.Duration) (*result, er
 
 // runRound executes one round; nil when the store could not be set up.
 func (e *env) runRound(cfg roundCfg, watchdog time.Duration) (*result, error) {
-	if cfg.sched == "commit-busy" {
+	if cfg.sched == "commit-busy" || cfg.sched == "write-during-mutate" {
 		return e.schedCommitBusy(cfg, watchdog)
 	}
 	st, err := e.open(cfg)
@@ -1165,6 +1194,17 @@ func main() {
 		if f.Thorough() {
 			ownMs = 6000
 		}
+		nFresh := 150
+		if f.Thorough() {
+			nFresh = 1200
+		}
+		rounds = append(rounds,
+			roundCfg{backend: "sql", store: "ord", g: 5, m: 2, sched: "write-during-mutate"},
+			roundCfg{backend: "mem", store: "uno", g: 5, m: 2, sched: "write-during-mutate"},
+			roundCfg{backend: "sql", store: "ord", g: 2, m: 8, sched: "retry-merge"},
+			roundCfg{backend: "sql", store: "uno", g: 3, m: nFresh, sched: "first-appends"},
+			roundCfg{backend: "sql", store: "ord", g: 2, m: nFresh, sched: "first-appends"},
+			roundCfg{backend: "mem", store: "ord", g: 8, m: nFresh * 4, sched: "first-appends"})
 		rounds = append(rounds, roundCfg{backend: "mem", store: "ord", g: 8, m: ownMs, sched: "own-keys"},
 			roundCfg{backend: "sql", store: "uno", g: 8, m: ownMs * 2, sched: "own-keys"})
 		for i := 0; i < nMem; i++ {
@@ -1197,21 +1237,31 @@ func main() {
 	for _, cfg := range rounds {
 		for rep := 0; rep < reps; rep++ {
 			j.Risky(cfg.String())
-			if cfg.sched == "own-keys" {
-				fails, hung, err := e.runOwnKeys(cfg, 40*time.Second+time.Duration(cfg.m)*time.Millisecond, rp)
+			if cfg.sched == "own-keys" || cfg.sched == "retry-merge" || cfg.sched == "first-appends" {
+				wd := 40 * time.Second
+				run, key := e.runOwnKeys, "mutate-stored-foreign-bytes"
+				switch cfg.sched {
+				case "own-keys":
+					wd += time.Duration(cfg.m) * time.Millisecond
+				case "retry-merge":
+					run, key = e.runRetryMerge, "mutate-not-serial"
+				case "first-appends":
+					run, key = e.runFirstAppends, "first-append-lost"
+				}
+				fails, hung, err := run(cfg, wd, rp)
 				if hung {
-					_, hung, err = e.runOwnKeys(cfg, 40*time.Second+time.Duration(cfg.m)*time.Millisecond, rp)
+					_, hung, err = run(cfg, wd, rp)
 					if hung {
-						rp.Fail(cfg.backend+":op-never-returns", "an own-key round did not finish within its time plus 40 s, twice: "+cfg.String(), []string{cfg.String()})
+						rp.Fail(cfg.backend+":op-never-returns", "a fixed workload did not finish within its time plus 40 s, twice: "+cfg.String(), []string{cfg.String()})
 					}
 				}
 				if err != nil {
 					rp.Note("round %s could not be set up: %v", cfg, err)
 				}
 				rp.Case(cfg.String(), true)
-				rp.Count("rounds:own-keys:" + cfg.backend)
+				rp.Count("rounds:" + cfg.sched + ":" + cfg.backend)
 				for _, fl := range fails {
-					rp.Fail(cfg.backend+":mutate-stored-foreign-bytes", fl+" ["+cfg.String()+"]", []string{cfg.String()})
+					rp.Fail(cfg.backend+":"+key, fl+" ["+cfg.String()+"]", []string{cfg.String()})
 				}
 				continue
 			}
